@@ -95,9 +95,11 @@ def _object_value_node_from_value(
 
     field_nodes = []
     for field_def in input_type.fields:
-        if field_def.name in value:
+        # Coerced input objects (which is what default values are) are keyed
+        # by the Python name of their fields, not by the GraphQL name.
+        if field_def.python_name in value:
             field_value = ast_node_from_value(
-                value[field_def.name], field_def.type
+                value[field_def.python_name], field_def.type
             )
             field_nodes.append(
                 _ast.ObjectField(
